@@ -126,6 +126,8 @@ def malformed_stream(rnd, tier, per_seed=10):
             cases.append(('SCTP', b2s(pkt), 'stray-bytes-in-chunk'))
             if r_ == 1:
                 cases.append(('IPv6', b2s(P.ipv6(rnd, pkt, 132)), 'stray-bytes-in-chunk'))
+    for jl in (65533, 65534, 65535):       # the three chunk lengths whose rounding up to a multiple of 4 leaves 16 bits
+        cases.append(('SCTP', b2s(P.sctp_large(rnd, 'jumbo', jumbo_len=jl)[0]), 'large-well-formed'))
     for kind in ('params', 'data', 'sack', 'bigparam', 'jumbo', 'data-coap'):
         big, _ = P.sctp_large(rnd, kind)
         cases.append(('SCTP', b2s(big), 'large-well-formed'))
